@@ -31,7 +31,7 @@ def write_tree(root: Path, files: dict, skeleton=True):
     an importable package needs gets a protocol.xml and net/ gets PacketFamily/PacketAction."""
     dirs = set(files)
     if skeleton:
-        dirs |= set(SKELETON_DIRS) - {""}
+        dirs |= set(SKELETON_DIRS)           # like eo-protocol itself: a protocol.xml in the root and in every package directory
     for d in sorted(dirs):
         body = files.get(d, "")
         if skeleton and d == "net" and "PacketFamily" not in body:
